@@ -148,6 +148,28 @@ def _early(run, rid, rel, fn, env, hook, tparam, value_at, what, tau_poly=None):
     canon = Canon(rename={tparam: "T"}, env=env, atom_hook=hook)
     found = 0
 
+    def depends_on_tau(test):
+        """does the guard read the query coordinate (through locals, the affine map, abs(), ...)?"""
+        for n in ast.walk(test):
+            if isinstance(n, ast.Name) and isinstance(n.ctx, ast.Load):
+                try:
+                    at = canon.poly(n).atoms()
+                except RecursionError:
+                    at = set()
+                if any(a in ("tau", "T") or "tau" in a or a.startswith("T") and not a[1:2].isalnum() for a in at):
+                    return True
+            if isinstance(n, ast.Call) and dotted(n.func) == "self.__affine_transform":
+                return True
+        return False
+
+    def range_shortcut(ifnode, t):
+        nonlocal found
+        found += 1
+        run.judged(rid, "%s early return under `%s`" % (what, src(t)), ok=False)
+        run.report(rid, rel, ifnode.body[0], "the shortcut `%s` is taken for a whole RANGE of the normalised coordinate (`%s` is not an equality of the coordinate with one "
+                   "value), where the %s polynomial is not the constant it returns: near or beyond the ends of the step the %s is no longer that of the cubic "
+                   "(a cubic is not reproduced to rounding there)" % (src(ifnode.body[0]), src(t), what, what))
+
     def visit(ifnode):
         nonlocal found
         t = ifnode.test
@@ -165,14 +187,10 @@ def _early(run, rid, rel, fn, env, hook, tparam, value_at, what, tau_poly=None):
                 if not ok:
                     run.report(rid, rel, ifnode.body[0], "the shortcut for tau == %s returns %s but the %s polynomial there is %s" % (
                         c, got.canon(), what, want.canon()[:120]))
-        elif isinstance(t, ast.Compare) and len(t.ops) == 1 and isinstance(t.ops[0], (ast.Lt, ast.LtE, ast.Gt, ast.GtE, ast.NotEq)) and \
-                ifnode.body and isinstance(ifnode.body[0], ast.Return):
-            sides = [canon.poly(t.left).cancel(), canon.poly(t.comparators[0]).cancel()]
-            if any(sd == Poly.atom("tau") or (tau_poly is not None and sd == tau_poly) for sd in sides) and any(sd.is_const() for sd in sides):
-                found += 1
-                run.judged(rid, "%s early return under `%s`" % (what, src(t)), ok=False)
-                run.report(rid, rel, ifnode.body[0], "the shortcut `%s` is taken for a whole RANGE of the normalised coordinate (`%s`), where the %s polynomial is not "
-                           "the constant it returns: outside the step (extrapolation) the %s is no longer that of the cubic" % (src(ifnode.body[0]), src(t), what, what))
+            elif ifnode.body and isinstance(ifnode.body[0], ast.Return) and depends_on_tau(t):
+                range_shortcut(ifnode, t)
+        elif ifnode.body and isinstance(ifnode.body[0], ast.Return) and depends_on_tau(t):
+            range_shortcut(ifnode, t)
         for o in ifnode.orelse:
             if isinstance(o, ast.If):
                 visit(o)
@@ -397,8 +415,8 @@ class VecBisectDomain(BisectDomain):
         return NotImplemented
 
 
-def bisection_vec(repo, run, tier):
-    r5 = run.rule("C17.5", "vectorised bisection interpreted over all order types with a model of its elementwise numpy operations: for every array length n and "
+def bisection_vec(repo, run, tier, rule_id="C17.5"):
+    r5 = run.rule(rule_id, "vectorised bisection interpreted over all order types with a model of its elementwise numpy operations: for every array length n and "
                            "every vector of query classes tried it returns min(first index with element >= query, n-1) component-wise, i.e. agrees with the "
                            "scalar search", floor=20)
     fn = repo.get(UTIL, "search_bisection_vec")
@@ -421,7 +439,7 @@ def bisection_vec(repo, run, tier):
                 continue
             except _Converted as e:
                 run.judged(r5, "conversion %s" % e, ok=False)
-                run.report("C17.5", UTIL, fn, "the queries (or the array) are converted to another dtype (`%s`) before they are compared: a query between two representable "
+                run.report(rule_id, UTIL, fn, "the queries (or the array) are converted to another dtype (`%s`) before they are compared: a query between two representable "
                                               "values of the narrower type is rounded onto an element, so the vector search no longer returns the first element not smaller than "
                                               "the query and disagrees with the scalar search" % e, text="search_bisection_vec converts its operands: %s" % e)
                 return
@@ -439,6 +457,6 @@ def bisection_vec(repo, run, tier):
     run.extra["vector_bisection_cases"] = total
     if bad:
         n, qs, why = bad[0]
-        run.report("C17.5", UTIL, fn, "for a strictly increasing array of length %d and query classes %s the vectorised search %s (%d of %d cases fail): it disagrees "
+        run.report(rule_id, UTIL, fn, "for a strictly increasing array of length %d and query classes %s the vectorised search %s (%d of %d cases fail): it disagrees "
                                       "with the specification / the scalar search" % (n, qs, why, len(bad), total),
                    text="search_bisection_vec over order types: first failure n=%d: %s" % (n, why))
